@@ -7,8 +7,9 @@ intra-line diff are converted to byte offsets before they are compared with byte
 content-modified blocks are collected and checked; the (file, name) keys inserted and looked up have
 the same shape and an empty file part falls back to the modified block's own file; one push per
 missing reference; no state carried between files other than the index of modified blocks; the diff's
-target path loses exactly one `b/`; no swallowed error.
-Not decided: the position arithmetic relating diff lines/columns to block spans; the unidiff parser.
+target path loses exactly one `b/`; no swallowed error;
+the overlap test of a line change with a block's spans on a small model (C01.span, 432 concrete cases per method).
+Not decided: that the diff parser's line changes are the right ones for every edit script (the unidiff parser).
 """
 import re
 
@@ -602,10 +603,17 @@ def run(ctx, out, tier):
         _detect_once(ctx, out, _dv, rule="C01.detect")
     else:
         out.inst("C01.detect", 0, 4)
+    # what a validator found is only reported if the report keeps every violation (shared with C11)
+    from rules.C11 import check_items as _check_items
+    shared.run_renamed(out, lambda o: _check_items(ctx, o), "C11", "C01")
+    from rules.shared import check_detect_cases
+    check_detect_cases(ctx, out, ["affects"], rule="C01.detectcase")
     shared.check_scan_state(ctx, out, "C01.scanstate")
     # whether a change touches a block is decided with the range kind the block model declares (shared with C02)
     from rules.C02 import check_inclusive
     check_inclusive(ctx, out, rule="C01.incl")
+    from rules.C02 import _span
+    _span(ctx, out, "C01.span")
     check_linekind(ctx, out)
     return meta()
 
@@ -613,6 +621,6 @@ def run(ctx, out, tier):
 def meta():
     return {
         "explanation": "Decides the coordinate / unit / ordering discipline that the drift check needs on inputs other than the tests': new-file coordinates of every LineChange (origin sets), monotone predicates of all ordered searches (finite-model evaluation of the closures), FIFO use and per-hunk flush of the deleted-line queue (path property), char->byte conversion of intra-line diff indices, is_content_modified guards, (file,name) key shapes with own-file fallback, push iff missing, no state leaking between files, single strip of `b/`, no swallowed Result. These are necessary conditions; the arithmetic on positions is not decided.",
-        "undecided": "integer arithmetic relating diff positions to block spans; unidiff's parsing of git's output.",
+        "undecided": "that the line changes produced from the diff are right for every edit script (unidiff's parsing of git's output; the overlap test itself is decided on a small model, C01.span).",
         "assumptions": ["line changes of one file are pushed in hunk order (iteration order of unidiff)"],
     }
